@@ -370,3 +370,19 @@ pub fn k_closure_lossy(x: u8, y: u8) -> u32 { let l = Lossy { keep: x, drop_me: 
 pub fn k_closure_copy(x: u8, y: u8) -> u32 { let s = CopyFold { l: x & 1 != 0, r: y & 1 != 0 }; let f = move || (s.l as u32) | (s.r as u32) << 1; let g = f.clone(); let h = f; g() + h() * 4 }
 pub fn k_array_clone(x: u8, y: u8) -> u32 { let a = [Lossy { keep: x, drop_me: 1 }, Lossy { keep: y, drop_me: 2 }]; let b = a.clone(); b[0].keep as u32 + b[1].keep as u32 * 256 + (b[0].drop_me + b[1].drop_me + a[1].drop_me) as u32 * 65536 }
 pub fn k_nested_clone(x: u8, y: u8) -> u32 { let t = ((x, Plain { a: y, b: x }), [Lossy { keep: y, drop_me: 9 }], 5u8); let c = t.clone(); (c.0).0 as u32 + (c.0).1.a as u32 * 256 + c.1[0].keep as u32 * 65536 + (c.1[0].drop_me as u32 + c.2 as u32) * 0x100_0000 }
+
+// ---- ninth batch: several impls of one generic trait for one type (selected by the trait's type argument)
+struct Strict; struct Lenient; struct Mid;
+trait Page<K> { fn resolve(code: u8) -> u32; }
+trait PageD<K> { fn via(&self, code: u8) -> u32; }
+struct Dec2;
+impl Page<Strict> for Dec2 { fn resolve(code: u8) -> u32 { if code == 0x14 { 1 } else { 1000 } } }
+impl Page<Lenient> for Dec2 { fn resolve(code: u8) -> u32 { if code == 0x14 { 1 } else { code as u32 + 2000 } } }
+impl Page<Mid> for Dec2 { fn resolve(code: u8) -> u32 { if code & 1 == 0 { 7 } else { 3000 } } }
+impl PageD<Strict> for Dec2 { fn via(&self, code: u8) -> u32 { code as u32 + 10 } }
+impl PageD<Lenient> for Dec2 { fn via(&self, code: u8) -> u32 { code as u32 * 2 } }
+impl PageD<Mid> for Dec2 { fn via(&self, code: u8) -> u32 { 5 } }
+fn finish<K>(code: u8) -> u32 where Dec2: Page<K> { <Dec2 as Page<K>>::resolve(code) }
+fn finish_dyn<K>(d: &dyn PageD<K>, code: u8) -> u32 { d.via(code) }
+pub fn p_trait_args(x: u8, y: u8) -> u32 { match y % 3 { 0 => finish::<Strict>(x), 1 => finish::<Lenient>(x), _ => finish::<Mid>(x) } }
+pub fn p_trait_args_dyn(x: u8, y: u8) -> u32 { if y & 1 == 0 { finish_dyn::<Lenient>(&Dec2, x) } else { finish_dyn::<Mid>(&Dec2, x) } }
